@@ -21,6 +21,10 @@ pub struct Case {
     pub login: LoginScript,
     pub adapters: AdapterScript,
     pub select_seed: u64,
+    /// how the transport accepts the server's writes (empty = everything at once); used together with a discovery
+    /// that completes while the first Keep Alive is still on its way out
+    #[serde(default)]
+    pub wscript: Vec<sim::WStep>,
 }
 
 pub struct C03;
@@ -76,7 +80,10 @@ fn decide(case: &Case, out: &sim::SimOutcome, info: &mut CaseInfo) -> Verdict {
     if discover_calls.len() != 1 {
         return Verdict::Fail { sig: "discovery-call-count".into(), msg: format!("discovery consulted {} times", discover_calls.len()) };
     }
-    if out.stream_broken.is_some() || out.cb_leftover != 0 {
+    // when a backend call fails while a Keep Alive is only partly written, the connection ends with that frame cut
+    // off: an abrupt end, not a broken stream (nothing follows the fragment)
+    let cut_off_by_error = !case.wscript.is_empty() && !out.returned_ok() && out.stream_broken.is_none() && transfers.is_empty() && !out.cb.iter().any(|(_, p)| matches!(p, Pkt::CfgDisconnect { .. }));
+    if (out.stream_broken.is_some() || out.cb_leftover != 0) && !cut_off_by_error {
         return Verdict::Fail { sig: "clientbound-stream-broken".into(), msg: format!("{:?}, {} stray bytes", out.stream_broken, out.cb_leftover) };
     }
 
@@ -263,6 +270,27 @@ impl Check for C03 {
                 login: LoginScript { intent, name, uuid, locale, ..Default::default() },
                 adapters: AdapterScript { discovery, filter, strategy, loc, ..Default::default() },
                 select_seed,
+                wscript: vec![],
+            })
+            .prop_flat_map(|case| {
+                // a share of cases: discovery takes a little over one keep-alive period and completes while the Keep
+                // Alive of the 16 s tick is only partly written or still pending; the outcome must be the same
+                (Just(case), prop::bool::weighted(0.08), 50u16..1500, proptest::option::of(1u16..9)).prop_map(|(mut case, slow, pending_ms, prefix)| {
+                    if slow {
+                        case.adapters.discovery_ms = 16_000 + u32::from(pending_ms) / 2;
+                        // a few bytes are accepted and the rest stays pending, or nothing is accepted for a while
+                        let disturbed: Vec<sim::WStep> = match prefix {
+                            Some(k) => vec![sim::WStep::Prefix(k), sim::WStep::PendingFor(pending_ms)],
+                            None => vec![sim::WStep::PendingFor(pending_ms)],
+                        };
+                        // writes before the configuration phase: session cookie request, (auth cookie request,)
+                        // Encryption Request, Login Success
+                        let before = 3 + usize::from(case.login.intent == 3 && case.cfg.secret.is_some());
+                        case.wscript = vec![sim::WStep::All; before];
+                        case.wscript.extend(disturbed);
+                    }
+                    case
+                })
             })
             .boxed()
     }
@@ -271,8 +299,14 @@ impl Check for C03 {
     }
     fn run(&self, case: &Case) -> (Verdict, CaseInfo) {
         let login = case.login.clone();
-        let out = sim::run_sim(&case.cfg, &case.adapters, &TransportScript::default(), case.select_seed, 1000, crate::client_fn!(|c| sim::drive_login(c, &login).await));
+        let out = sim::run_sim(&case.cfg, &case.adapters, &TransportScript { wscript: case.wscript.clone(), rscript: vec![] }, case.select_seed, 1000, crate::client_fn!(|c| sim::drive_login(c, &login).await));
+        if !case.wscript.is_empty() {
+            // (set below) a Keep Alive write that is partial or pending when discovery completes
+        }
         let mut info = CaseInfo::default();
+        if !case.wscript.is_empty() {
+            info.class("keep_alive_write_disturbed_while_discovery_completes");
+        }
         if !matches!(case.adapters.filter, FilterV::Identity) {
             info.class("filter:changes_list");
         }
